@@ -1022,8 +1022,19 @@ impl SignedDuration {
         self,
         rhs: SignedDuration,
     ) -> Option<SignedDuration> {
-        let Some(rhs) = rhs.checked_neg() else { return None };
-        self.checked_add(rhs)
+        let Some(neg) = rhs.checked_neg() else {
+            // `rhs` has `i64::MIN` seconds, so its negation isn't
+            // representable. But `self - rhs` might be! So shift both
+            // sides by one second, which makes `rhs` negatable without
+            // changing the difference. If `self + 1s` overflows, then so
+            // does `self - rhs`.
+            let one = SignedDuration::new_unchecked(1, 0);
+            let Some(lhs) = self.checked_add(one) else { return None };
+            let Some(rhs) = rhs.checked_add(one) else { return None };
+            let Some(neg) = rhs.checked_neg() else { return None };
+            return lhs.checked_add(neg);
+        };
+        self.checked_add(neg)
     }
 
     /// Add two signed durations together. If overflow occurs, then arithmetic
